@@ -290,7 +290,7 @@ def run(tier):
         elif k == 2:
             d = b"GET /dir1/c.txt?x=%d HTTP/1.0\r\n\r\n" % i
         elif k == 3:
-            d = b"/nonexistent-%d\r\n" % i
+            d = (b"/mail.mbox|/MBOX-MESSAGE/%d\t+\r\n" % (i + 2)) if i % 12 == 3 else (b"/nonexistent-%d\r\n" % i)
         elif k == 4:
             d = b"/b.html\t!\r\n" if i % 12 == 4 else b"/dir1/sub\t$\r\n"
         else:
@@ -298,7 +298,7 @@ def run(tier):
         sreqs.append({"data": gen.lat(d), "tls": False})
     for pb in probes:
         sreqs.append({"data": gen.lat(pb), "tls": False})
-    sres = impl_run_parallel([{"op": "world_faults", "tree": stree, "config": trees.SITE_CONFIG, "nofile": 48, "requests": sreqs}])
+    sres = impl_run_parallel([{"op": "world_faults", "tree": stree, "config": trees.SITE_CONFIG, "nofile": 24, "requests": sreqs}])
     if not sres[0]["ok"]:
         raise RuntimeError(sres[0]["err"] + sres[0].get("tb", ""))
     sout = sres[0]["res"]["results"]
@@ -309,7 +309,7 @@ def run(tier):
         chk.count(("soak", pb), nontrivial=True)
         if a != b:
             found = True
-            chk.violation({"what": "after %d other requests (descriptor limit 48 above the baseline) the same request is answered differently" % nsoak,
+            chk.violation({"what": "after %d other requests (descriptor limit 24 above the baseline) the same request is answered differently" % nsoak,
                            "request_latin1": gen.lat(pb), "first_answer": a[:200].decode("latin-1"), "later_answer": b[:200].decode("latin-1"),
                            "tree": stree}, tag="history-dependence:resource-leak")
 
